@@ -614,6 +614,14 @@ func (x *Exec) makeInterface(st *State, fr *Frame, in *ssa.MakeInterface) Val {
 	if isInterface(ct) {
 		return Val{S: x.term(v), T: in.Type()}
 	}
+	if n, ok := ct.(*types.Named); ok && n.Obj().Pkg() != nil && n.Obj().Pkg().Path() == "encoding/binary" {
+		switch n.Obj().Name() {
+		case "littleEndian":
+			return Val{S: x.byteOrderConst(true), T: in.Type()}
+		case "bigEndian":
+			return Val{S: x.byteOrderConst(false), T: in.Type()}
+		}
+	}
 	tid := x.te.TypeID(ct)
 	if v.Clo != nil || v.Fn != nil {
 		r := x.fresh(st, in.Type(), "ifc")
@@ -666,3 +674,16 @@ func (x *Exec) typeAssert(st *State, fr *Frame, in *ssa.TypeAssert) Val {
 }
 
 func typeHasPrefix(t types.Type, p string) bool { return strings.HasPrefix(shortTypeName(t), p) }
+
+// byteOrderConst: the two encoding/binary byte orders as distinguished
+// interface values.
+func (x *Exec) byteOrderConst(le bool) string {
+	if !x.S.Has("IFACE_LE") {
+		x.S.Raw("(declare-const IFACE_LE Int)\n(declare-const IFACE_BE Int)", []string{"IFACE_LE", "IFACE_BE"}, "")
+		x.S.Axiom("byteorders", []string{"IFACE_LE", "IFACE_BE"}, "(and (> IFACE_LE 0) (> IFACE_BE 0) (not (= IFACE_LE IFACE_BE)))")
+	}
+	if le {
+		return "IFACE_LE"
+	}
+	return "IFACE_BE"
+}
